@@ -39,6 +39,13 @@ CHECKS = {
              "BridgeUnlock: Ok implies the event id was unused in the pre-state and is recorded afterwards under (bridge address, id); a refused withdrawal consumes no id.",
         note=KANI_TB + " Not under contract yet: BridgeTransfer, Ics20Withdrawal event-id use, ICS-20 receive deposits (known candidate F6), construction of the Deposit in CheckedBridgeLockImpl::new, publication of cached deposits into the block.",
     ),
+    "C05": dict(
+        category="other",
+        technique="Kani full-domain harnesses on the extracted ExecutionStateMachine transition functions (contract = total transition relation)",
+        text="Decides only the part of the property that lives in the execution-state machine: check_if_prepared_proposal returns true iff the cached proposal equals the request in every one of its seven fields, check_if_executed_block true iff the hash is the executed block's, "
+             "set_executed_block succeeds only from Unset/PreparedValid, errors leave the machine unchanged and the two mismatch states are absorbing, for all states and requests. Path-independence of execution below the machine is NOT decided.",
+        note="level other: a per-function proof of the skip/re-execute decision, not of determinism. Trusted: Kani/CBMC, small finite stand-ins for tendermint types. Not under contract: App::process_proposal/finalize_block skeleton, the order of oracle price application vs. transaction execution on cached vs. fresh paths (candidate K2, DESIGN §7), HashMap iteration, storage.",
+    ),
     "C06": dict(
         category="proof",
         technique="Verus contracts on the extracted BlockSizeConstraints methods (representation invariant current <= max) + induction lemma over a sequence of additions",
@@ -58,6 +65,32 @@ CHECKS = {
         text="The threshold function returns true iff 3*committed > 2*total in exact arithmetic; verify_metadata returns Some only for metadata whose chain id and block hash equal those of the quorum-checked commit at its own height and drops nothing that matches; "
              "the tally accepts only if distinct validators with logged successful signature checks over this commit's canonical vote hold > 2/3 (bounded to 2 validators x 2 signatures).",
         note="Trusted: Verus/Z3, Kani/CBMC, ed25519 as an opaque predicate, tendermint/moka stand-ins. Not under contract: RPC fetching, reconstruct/convert (Merkle binding of rollup data is C07/C08).",
+    ),
+    "C10": dict(
+        category="other",
+        technique="Kani harnesses on the extracted BlockCache (pop/insert/drop_obsolete against a representation invariant, symbolic contents, capacity 3), should_execute_firm_block, does_block_response_fulfill_contract and the rollup/sequencer height mapping",
+        text="BlockCache hands out exactly the block of the next expected height, once, rejects old and duplicate deliveries, never lowers its next height and keeps its invariant; a firm block is executed iff soft has not executed that height; the rollup must answer with exactly current+1; the height mapping is exact and inverse. "
+             "The executor step functions (execute_soft/execute_firm/update_commitment_state) and the interleaving lemma are not built.",
+        note="level other: kernel only. Trusted: Kani/CBMC, ordered-map stand-in for BTreeMap (capacity 3, labelled bounded), tendermint Height <= i64::MAX. Not covered: executor steps, tokio select loop, reader tasks.",
+    ),
+    "C11": dict(
+        category="other",
+        technique="Kani loop-free harnesses on the extracted submission-state functions against a two-cell file-system stand-in with failing writes and atomic rename",
+        text="State::write never writes the state file in place (temp then rename) and is all-or-nothing; State::read accepts a Prepared record only if its height is beyond the last confirmed one; construct_and_write makes the prepared record durable before returning and carries last_submission unchanged; "
+             "into_started advances last_submission exactly to the in-flight height, revert keeps it; restart resumes from the confirmed height. The ordering in relayer/write (prepared before broadcast, started only after confirmation) is not under contract.",
+        note="level other: invariant kernel under a stated crash model (POSIX rename atomic, no torn temp read-back). Trusted: Kani/CBMC, serde_json round-trip, the file-system stand-in. Not covered: write/mod.rs try_submit and startup confirm/revert, the no-gap induction.",
+    ),
+    "C12": dict(
+        category="other",
+        technique="Kani loop-free harnesses on the extracted NextSubmission::try_add and TakeSubmission::poll with stand-ins for the input/payload conversion",
+        text="try_add commits a candidate only if its compressed payload is within MAX_PAYLOAD_SIZE_BYTES, appends the block exactly once after the earlier ones with the payload built from that very input, and on refusal leaves the batch untouched and hands the block back; take() moves input and payload out together and leaves nothing behind.",
+        note="level other. Trusted: Kani/CBMC; Input::extend_from_sequencer_block / try_into_payload (filter, protobuf, brotli, Blob::new) are stand-ins. Not covered: metadata-vs-filter behaviour, pending_block handling, encode/decode agreement with conductor.",
+    ),
+    "C13": dict(
+        category="other",
+        technique="Kani full-domain harnesses on the extracted TransactionPriority ordering and on TransactionsForAccount::add for the pending container (symbolic contents, capacity 3)",
+        text="The builder-queue priority is a total order that puts a lower nonce of the same group first; add on the ready container preserves `consecutive nonces starting at the account nonce` and joint affordability, and a refused add leaves the container untouched with the stated reason.",
+        note="level other: container kernel. Trusted: Kani/CBMC, ordered-map stand-in, single-asset cost model. Not covered: parked containers, promotion/demotion, TransactionsContainer, Mempool orchestration and the exactly-one-place invariant.",
     ),
     "C14": dict(
         category="proof",
@@ -81,5 +114,12 @@ CHECKS = {
              "A proof fn lifts this to arbitrary push/pop histories (each accepted action emitted exactly once, in order).",
         note="Trusted: Verus/Z3; prost encoded_len and with_ibc_prefixed as uninterpreted functions; the metrics-only rollup_counts statement hoisted into an "
              "opaque function; mem::replace specification; max_size < usize::MAX. NextFinishedBundle (a &mut-holding struct) is outside Verus' subset.",
+    ),
+    "C18": dict(
+        category="proof",
+        technique="Kani loop-free harnesses on the extracted decrease_ibc_channel_balance, refund_tokens_to_sequencer_address, is_transfer/refund_source_zone and receive_tokens against a symbolic store; split obligation for known finding F6",
+        text="Escrow is debited by exactly the amount and never below zero (insufficient escrow is an error, nothing written); a refund releases escrow exactly iff the sequencer was the source zone and credits the recipient exactly; a successful receive debits escrow / registers the asset and credits exactly, with a deposit iff the recipient is a bridge account. "
+             "The no-side-effect-on-failure obligation of receive_tokens is a listed known finding (F6).",
+        note=KANI_TB + " Packet data carried pre-parsed; emit_bridge_lock_deposit is a stand-in; denoms have at most 2 trace segments. Not under contract: Ics20Withdrawal::execute (sending side), refund_tokens' rollup branch, timeout/ack handlers.",
     ),
 }
